@@ -128,6 +128,10 @@ def gen_min_cases(rng, n):
                     "bounds": bounds, "lr": rng.choice([0.05, 0.1]), "max_iter": rng.choice([60, 400]), "tol": rng.choice([1e-4, 1e-3]),
                     "bounds_kind": "none" if bounds is None else "zero-end" if 0 in [v for v in bounds if v is not None] else "one-sided" if None in bounds else "two-sided",
                     "reuse": rng.random() < 0.4})
+        if rng.random() < 0.3:
+            # the parameter being minimised over need not be called x: a name spelled like a mathematical constant in a case the
+            # expression language does NOT treat as one (e, E, pi, Pi, infinity) is an ordinary name, like lamda or N_1
+            out[-1]["param"] = rng.choice(["e", "E", "pi", "Pi", "infinity", "lamda", "N_1", "t"])
     return out
 
 
